@@ -638,7 +638,10 @@ class C12(Prop):
             '1 producer at byte-code granularity of the two critical sections, k=2 / 2). Random part: a failing wrapped call at '
             'every position of one workload, and random workloads (1-3 producers x 1-3 recordings x 0-4 writes + metadata + '
             'save, failing wrapped calls, close by a joiner or by a producer at any point, optionally one blocking wrapped '
-            'call) under random schedules at line and byte-code granularity. A case is non-trivial when at least one call '
+            'call) under random schedules at line and byte-code granularity. Sequential part (one caller, no schedule, not modelled): '
+            'writes of equal-but-different values (1 / True / 1.0, 0 / False, 2 / 2.0, equal strings) under one key / metadata name, and '
+            'bursts of 1001 - 12289 writes while the flusher sleeps, compared with recording directly down to the type of every value. '
+            'A case is non-trivial when at least one call '
             'reached the wrapped cassette and the scheduler had at least one real choice; distinct = distinct canonical case')
     TRUSTED = ['correspondence harness harness/props/c12.py + harness/sched.py (sys.settrace baton scheduler, cooperative '
                'Lock/Event/Thread stand-ins installed from outside) + Lean driver (Drive/Async.lean)',
